@@ -36,6 +36,9 @@ def queries(tier):
         qs.append(dict(name='skipws_len%d' % L, unit='json', harness='h_skipws.c', defs={'LEN': L}, unwind=L + 3, timeout=300, mem_gb=3,
                        desc='skip_whitespace_and_comments on %d symbolic bytes, symbolic mode: no exception, stops where the reference scanner stops' % L,
                        bounds='input length == %d, all byte values' % L))
+    for f in (91, 123):
+        qs.append(dict(name='first%d_len2' % f, unit='json', harness='h_probe.c', defs={'LEN': 2, 'NB': 1, 'FIRST': f}, unwind=8,
+                           unwindset=parse_unwindset(2, 1), object_bits=12, timeout=1500, mem_gb=10, desc='parse', bounds=''))
     for L in (1, 2, 3):
         for NB in (0, 1):
             qs.append(dict(name='totalpd_len%d_nb%d' % (L, NB), unit='jsonpd', harness='h_probe.c', defs={'LEN': L, 'NB': NB}, unwind=8,
